@@ -96,6 +96,18 @@ Theorem C18_variants_hash_equal :
       stable_hash_v xxh_sum xxh_stream v1 ls = stable_hash xxh_sum ls.
 Proof. exact variants_hash_equal. Qed.
 
+(* stringlabels keeps a label set as size-prefixed bytes and StableHash walks that encoding:
+   decoding the encoding of any label list (sizes below 2^24, the encoder's limit) gives the
+   list back, so the hash over Labels.data is the hash over the labels *)
+Theorem C18_stringlabels_roundtrip :
+  forall ls,
+    Forall (fun v => len (l_name v) < 16777216 /\ len (l_value v) < 16777216) ls ->
+    sl_decode (length (sl_encode ls)) (sl_encode ls) = Some ls /\
+    feed_string_data (sl_encode ls) = Some (feed_of VString ls).
+Proof.
+  intros ls H. split; [apply sl_decode_encode; [exact H|apply sl_encode_length]|exact (feed_string_data_encode ls H)].
+Qed.
+
 (* ------------------------------------------------------------------ non-vacuity *)
 Definition ex_sum (b : bytes) : Z := Z.of_N (fold_left N.add b 0%N).   (* a toy hash *)
 Definition ex_l (v : N) : labels := [mkL [110%N] [v]].
@@ -118,4 +130,11 @@ Example C18_ex_slow_path :
   let ls := [mkL [97%N] (repeat 120%N 600); mkL [98%N] (repeat 121%N 600); mkL [99%N] [1%N]] in
   map (fun v => is_stream (feed_of v ls)) [VString; VSlice; VDedupe] = [true; true; true] /\
   map (fun v => is_stream (feed_of v (ex_l 1))) [VString; VSlice; VDedupe] = [false; false; false].
+Proof. vm_compute. split; reflexivity. Qed.
+
+(* a value of 300 bytes uses the 4-byte size prefix of the stringlabels encoding *)
+Example C18_ex_roundtrip :
+  let ls := [mkL [97%N] (repeat 120%N 300); mkL [98%N] []] in
+  firstn 7 (sl_encode ls) = [1; 97; 255; 44; 1; 0; 120]%N /\
+  sl_decode (length (sl_encode ls)) (sl_encode ls) = Some ls.
 Proof. vm_compute. split; reflexivity. Qed.
